@@ -17,9 +17,10 @@ type pkgSel struct {
 var checkedInPkgs = []string{"./testpb", "./internal/testprotos/test3"}
 
 func newGen(s *Schema, tier string) *gen {
-	g := &gen{s: s, strLen: 1 << 21, keyLen: 2, listN: 2, mapN: 2, pick: 3, seed: seed()}
+	g := &gen{s: s, strLen: 1 << 21, keyLen: 2, listN: 2, mapN: 2, pick: 3, seed: seed(), smallPayload: 4}
 	if tier == "thorough" {
 		g.pick = 5
+		g.smallPayload = 6
 	}
 	return g
 }
@@ -145,6 +146,120 @@ func init() {
 			}, nil
 		}
 	}
+	mkDec := func(prop string) func(tier string) (*Plan, error) {
+		return func(tier string) (*Plan, error) {
+			var gg *gen
+			units, patterns, err := codecUnits([]string{prop}, tier, "decode", func(g *gen, msgs []*Message) string {
+				gg = g
+				return g.DecodeSource([]string{prop}, msgs, true, fieldFilterFor(tier))
+			})
+			if err != nil {
+				return nil, err
+			}
+			if os := strings.TrimSpace(getenv("SYMGO_DUMP")); os != "" {
+				for _, u := range units {
+					for n, c := range u.Files {
+						writeFile(filepath.Join(os, u.PkgName+"_"+n), c)
+					}
+				}
+			}
+			b := codecBounds(gg)
+			b["decode step"] = "one well-typed record (minimal or one-group-padded varints and tags; packed runs of 0..2 elements; map entries with key/value present, missing or swapped; nested payload = one record of a scalar field) decoded by the real unmarshal closure into an arbitrary pre-state of the target field (family H1) or into a message with every other field populated (H2); expected post-state computed on a deep clone"
+			b["composition"] = "decoding a concatenation = iterating the step: the record loop carries only (message, index) - argued from the SSA, not solver-decided"
+			return &Plan{
+				LoadDir:  repoDir,
+				Patterns: patterns,
+				Units:    units,
+				Regex:    "^VH_" + prop + "_",
+				Cfg:      sym.Config{MaxLoop: 40, MaxPaths: 8000},
+				Bounds:   b,
+				Stubs:    codecStubs,
+			}, nil
+		}
+	}
+	specs["C06"] = func(tier string) (*Plan, error) {
+		var gg *gen
+		anyN := 4
+		if tier == "thorough" {
+			anyN = 5
+		}
+		units, patterns, err := codecUnits([]string{"C06"}, tier, "total", func(g *gen, msgs []*Message) string {
+			gg = g
+			return g.TotalSource(msgs, fieldFilterFor(tier), anyN)
+		})
+		if err != nil {
+			return nil, err
+		}
+		if os := strings.TrimSpace(getenv("SYMGO_DUMP")); os != "" {
+			for _, u := range units {
+				for n, c := range u.Files {
+					writeFile(filepath.Join(os, u.PkgName+"_"+n), c)
+				}
+			}
+		}
+		_ = gg
+		return &Plan{
+			LoadDir:  repoDir,
+			Patterns: patterns,
+			Units:    units,
+			Regex:    "^VH_C06_",
+			Cfg:      sym.Config{MaxLoop: 40, MaxPaths: 12000},
+			Bounds: map[string]string{
+				"record step":   "per field: tag with every wire type 0..7 followed by arbitrary bytes such that the first record fails or spans the whole buffer (varint <= 11 bytes, fixed <= 8/4, length-delimited with an arbitrary 64-bit declared length and a payload of symbolic length <= 2^21 for string/bytes/message fields, <= 6 bytes for packed and map payloads), decoded into an arbitrary pre-state of that field; arbitrary-length inputs follow by induction over the record loop (argued, not solver-decided)",
+				"arbitrary":     fmt.Sprintf("whole closure on fully arbitrary buffers of 0..%d bytes (unknown numbers, non-minimal and over-long tags)", anyN),
+				"nested":        "nested message decoding is replaced by an assume-guarantee stub (nil or error); each message type has its own harnesses",
+				"recursion":     "proto.UnmarshalOptions{RecursionLimit: 1} through the real protobuf-go dispatch on a record for a message-typed field",
+				"allocation":    "sum of make/append sizes <= 8*len(input)+64",
+				"post-state":    "Size and Marshal of every accepted message do not panic and agree",
+				"schemas":       "checked-in packages testpb and internal/testprotos/test3",
+			},
+			Stubs: append(append([]string{}, codecStubs...), "proto.UnmarshalOptions.Unmarshal for nested messages -> nil or opaque error (assume-guarantee)"),
+		}, nil
+	}
+	mkMisc := func(prop string, extra map[string]string) func(tier string) (*Plan, error) {
+		return func(tier string) (*Plan, error) {
+			var gg *gen
+			units, patterns, err := codecUnits([]string{prop}, tier, "misc", func(g *gen, msgs []*Message) string {
+				gg = g
+				if prop == "C05" && tier == "thorough" {
+					g.mapN = 3
+				}
+				return g.MiscSource(prop, msgs, fieldFilterFor(tier))
+			})
+			if err != nil {
+				return nil, err
+			}
+			if os := strings.TrimSpace(getenv("SYMGO_DUMP")); os != "" {
+				for _, u := range units {
+					for n, c := range u.Files {
+						writeFile(filepath.Join(os, u.PkgName+"_"+n), c)
+					}
+				}
+			}
+			b := codecBounds(gg)
+			for k, v := range extra {
+				b[k] = v
+			}
+			return &Plan{
+				LoadDir:  repoDir,
+				Patterns: patterns,
+				Units:    units,
+				Regex:    "^VH_" + prop + "_",
+				Cfg:      sym.Config{MaxLoop: 40, MaxPaths: 12000},
+				Bounds:   b,
+				Stubs:    codecStubs,
+			}, nil
+		}
+	}
+	specs["C05"] = mkMisc("C05", map[string]string{
+		"determinism": "every map field at top level and one level down inside singular / repeated / oneof / map-value messages; 0..2 entries (3 in thorough) with symbolic distinct keys; two marshal runs and a clone with reversed insertion order and flipped nil/empty containers, each under every map iteration order",
+	})
+	specs["C07"] = mkMisc("C07", map[string]string{
+		"aliasing":    "object identity on the executor heap: no []byte reachable from the decoded message (bytes fields in singular/repeated/oneof/map positions, unknown fields, nested) is backed by the input array; the input array term is untouched; decoding once and twice (Merge/duplicate records)",
+		"disturbance": "write-set of Size+Marshal restricted to objects allocated during the call; output buffer not backed by any message array; strings cannot alias in this model (Go string conversion copies; unsafe is rejected as unsupported)",
+	})
+	specs["C03"] = mkDec("C03")
+	specs["C14"] = mkDec("C14")
 	specs["C01"] = mk("C01")
 	specs["C02"] = mk("C02")
 	specs["C04"] = mk("C04")
